@@ -24,6 +24,15 @@ def workload(tier, seed, scale=1.0):
         for sg in (-1, 0, 1):
             for pad in (0, 16, 40):
                 cmds.append(cmd_frombu(sg, m, pad, cell=('frombu', sg, m == 0, pad, min(ndig(m), 6))))
+    # the other canonicalising constructors (new / from_slice / assign_from_slice) with every requested sign and slices that
+    # are normalised, zero-padded at the top, all zero, or empty
+    from ..oracles import cmd_new
+    for nw in (0, 1, 2, 3, 4, 5, 9):
+        for trail in (0, 1, 2, 3):
+            for fam in ('rand', 'zeros', 'max', 'low'):
+                ws = [{'rand': rnd.getrandbits(32), 'zeros': 0, 'max': 0xffffffff, 'low': 5 if i == 0 else 0}[fam] for i in range(nw)] + [0] * trail
+                for ks in ('I+', 'I-', 'I0'):
+                    cmds.append(cmd_new(ws, ks, cell=('new', ks, nw, trail, fam), prop='C19'))
     # abs_sub: sign/order cases
     vals = sorted(set([0, 1, -1, 2, -2, 3, -3, 5, -5] + [s * m for m in mags for s in (1, -1)]))
     for x in vals:
